@@ -119,6 +119,15 @@ type ContractSet struct {
 	Lemmas []*LemmaDef
 	Files  []string
 	Order  []string
+	SweepAll []SweepAllDef
+}
+
+type SweepAllDef struct {
+	Pkg   string
+	Props []string
+	Kinds []string
+	File  string
+	Line  int
 }
 
 func NewContractSet() *ContractSet {
@@ -376,6 +385,16 @@ func (cs *ContractSet) ParseContractFile(path, pkg string, trusted bool) error {
 		switch kw {
 		case "package":
 			pkg = rest
+			cur, curLemma = nil, nil
+		case "sweepall":
+			// `sweepall C10 idx slice div assert`: every function of this package that has no
+			// contract of its own is swept for these implicit panics (bare sweeps, see `sweep`);
+			// functions added later are covered without touching the contract files
+			fs := strings.Fields(rest)
+			if len(fs) < 2 {
+				return fail(fmt.Errorf("sweepall needs a property and at least one check kind"))
+			}
+			cs.SweepAll = append(cs.SweepAll, SweepAllDef{Pkg: pkg, Props: strings.Split(fs[0], ","), Kinds: fs[1:], File: path, Line: ln.n})
 			cur, curLemma = nil, nil
 		case "func":
 			name := rest
